@@ -1,9 +1,10 @@
-from .checks import deps, pipeline, version, selfhost, container, compilecheck, imports
+from .checks import deps, pipeline, version, selfhost, container, compilecheck, imports, pattern
 
 CHECKS = {
     "C01": lambda tier: compilecheck.run("C01", tier),
     "C17": lambda tier: compilecheck.run("C17", tier),
     "C02": lambda tier: container.run_c02(tier),
+    "C03": lambda tier: pattern.run_c03(tier),
     "C04": lambda tier: container.run_c04(tier),
     "C05": lambda tier: deps.run_property("C05", tier),
     "C06": lambda tier: deps.run_property("C06", tier),
